@@ -1,5 +1,6 @@
 import Pysmi.Model.Pysnmp
 import Pysmi.Generated.Pysnmp
+import Pysmi.Generated.Text
 /-!
 # C04 — pysnmp output is valid Python that loads and agrees with the JSON backend
 
@@ -88,3 +89,36 @@ theorem pin_smiObjects : smiObjects = [
   ("BITS", ["Bits"])] := rfl
 
 end Pysmi.Generated.Pysnmp
+
+namespace Pysmi.Generated.Text
+
+/-- which record key a setter of the generated module must be given -/
+def setterKey : String → List String
+  | "setStatus" => ["status"]
+  | "setMaxAccess" => ["maxaccess"]
+  | "setUnits" => ["units"]
+  | "setDescription" => ["description"]
+  | "setReference" => ["reference"]
+  | "setObjects" => ["objects", "modulecompliance"]
+  | "setIndexNames" => ["indices", "augmention"]
+  | "setRevisions" => ["revisions"]
+  | "setLastUpdated" => ["lastupdated"]
+  | "setOrganization" => ["organization"]
+  | "setContactInfo" => ["contactinfo"]
+  | "setProductRelease" => ["productrelease"]
+  | _ => []
+
+/-- **C04_setter_keys**: every `set…()` call the template writes is given the record key of that meaning (status to
+setStatus, maxaccess to setMaxAccess, …; the compliance list only in the MODULE-COMPLIANCE block) - decided on the call
+sites extracted from the template on every run -/
+theorem C04_setter_keys :
+    pysnmpSetterSites.all (fun s => (setterKey s.2.1).contains s.2.2 &&
+      (s.2.2 != "modulecompliance" || s.1 == "modulecompliance")) = true := by decide
+
+/-- every block whose records carry a status / an access writes it -/
+theorem C04_status_written :
+    (["objecttype|objectidentity", "objectgroup", "notificationtype", "notificationgroup", "agentcapabilities", "modulecompliance"].all
+      (fun c => pysnmpSetterSites.contains (c, "setStatus", "status")) &&
+     pysnmpSetterSites.contains ("objecttype|objectidentity", "setMaxAccess", "maxaccess")) = true := by decide
+
+end Pysmi.Generated.Text
